@@ -98,6 +98,8 @@ struct Guard {
     spin: u32,
 }
 
+const SLOW_ACTION: u32 = u32::MAX;
+
 impl Guard {
     #[inline]
     fn run(&self, delivered: Option<c_int>) {
@@ -115,12 +117,23 @@ impl Guard {
                     violation(V_WRONG_SIGNAL, self.idx, s as usize, c.sig.load(Ordering::SeqCst) as usize);
                 }
             }
-            c.runs.fetch_add(1, Ordering::Relaxed);
+            let runs = c.runs.fetch_add(1, Ordering::Relaxed);
             if LOG_ACTIONS.load(Ordering::Relaxed) {
                 evlog::log(kind::ACT_BEGIN, c.tag.load(Ordering::Relaxed), delivered.unwrap_or(0) as u64);
             }
-            for _ in 0..self.spin {
-                std::hint::spin_loop();
+            if self.spin == SLOW_ACTION {
+                // a slow action: its first two runs keep the delivery inside the handler for a dozen milliseconds (a removal
+                // that overlaps has to wait that long, however long that is)
+                if runs < 2 {
+                    let t0 = crate::now_ms();
+                    while crate::now_ms() - t0 < 12 {
+                        std::hint::spin_loop();
+                    }
+                }
+            } else {
+                for _ in 0..self.spin {
+                    std::hint::spin_loop();
+                }
             }
         }
         c.in_progress.fetch_sub(1, Ordering::SeqCst);
@@ -337,7 +350,12 @@ fn mutator(
                 violation(V_DROPS, l.idx, 99, l.tag as usize);
             }
         } else {
-            // Removed by the clearer. Wait until that call has returned (calls are sequential).
+            // Removed by the clearer. This call took the writer lock after the clearer's call had finished, so - as after
+            // every removal call that has returned - no invocation of the action can still be in progress.
+            let inflight = c.in_progress.load(Ordering::SeqCst);
+            if inflight != 0 {
+                violation(V_IN_FLIGHT, l.idx, inflight as usize, 78);
+            }
             let _ = begun;
             let b = CLEAR_BEGUN[l.sig as usize].load(Ordering::SeqCst);
             let mut spins = 0u64;
@@ -401,7 +419,7 @@ fn mutator(
             c.drop_tid.store(0, Ordering::SeqCst);
             c.drop_depth.store(0, Ordering::SeqCst);
             c.reg_ret_tick.store(0, Ordering::SeqCst);
-            let guard = Guard { idx, gen, spin: (rng.below(4) * 40) as u32 };
+            let guard = Guard { idx, gen, spin: if cfg.owner_mode && cfg.phase != "istep" && rng.chance(1, 40) { SLOW_ACTION } else { (rng.below(4) * 40) as u32 } };
             evlog::log(kind::CALL, 1 | ((s.sig as u64) << 8), tag);
             step_arm(cfg, &mut *step_rng.borrow_mut(), 1, s.sig);
             let res = if rng.chance(1, 2) {
